@@ -53,7 +53,7 @@ func runC18(c *Ctx) {
 	p := c.P
 	ix := p.Index()
 	methods := p.MethodsOf(smPkg, "SeatManager")
-	c.floor("lock-discipline", "SeatManager methods", len(methods), 30)
+	c.floor("lock-discipline", "SeatManager methods", len(methods), 15)
 	isMethod := map[*ssa.Function]bool{}
 	for _, m := range methods {
 		isMethod[m] = true
@@ -66,7 +66,8 @@ func runC18(c *Ctx) {
 		inUnits[m] = true
 	}
 	for _, fn := range p.Funcs {
-		if fn.Pkg != nil && shortPkg(fn.Pkg.Pkg.Path()) == smPkg && fn.Signature.Recv() == nil && fn.Parent() == nil && fn.Blocks != nil &&
+		// (methods of other types of the package - a predicate on *Seat - included)
+		if fn.Pkg != nil && shortPkg(fn.Pkg.Pkg.Path()) == smPkg && fn.Parent() == nil && fn.Blocks != nil &&
 			!token.IsExported(fn.Name()) && fn.Name() != "init" && ix.Info[fn] != nil && !inUnits[fn] {
 			units = append(units, fn)
 			inUnits[fn] = true
@@ -137,7 +138,7 @@ func runC18(c *Ctx) {
 			c.check(ok, "lock-discipline", fnKey(m)+"#reader", p.FnPos(m), "holds "+li.Kind+" for its whole body", why)
 		}
 	}
-	c.floor("lock-discipline", "exported methods touching guarded state", nLocked, 13)
+	c.floor("lock-discipline", "exported methods touching guarded state", nLocked, 8)
 	// unexported methods touching guarded state: every in-package caller holds or is covered
 	covered := map[*ssa.Function]bool{}
 	for m := range holders {
@@ -158,6 +159,10 @@ func runC18(c *Ctx) {
 			}
 			callers := ix.Callers(m)
 			if len(callers) == 0 {
+				// an unexported helper nobody calls never runs: it holds no access of its own
+				// and taints none of the helpers it would call
+				covered[m] = true
+				changed = true
 				continue
 			}
 			all := true
@@ -243,7 +248,7 @@ func runC18JoinGuards(c *Ctx) {
 	} else {
 		c.touch(fnKey(fn))
 		s := newS(0)
-		s.HelperInline = smHelperFilter(p, fn)
+		s.HelperInline = smHelperFilterLoose(p, fn)
 		paths, _ := s.Function(fn)
 		id := "param:" + fn.Params[1].Name()
 		var viol []string
@@ -585,7 +590,7 @@ func runSentinels(c *Ctx, rule string) {
 	}
 	sort.Strings(names)
 	c.role("sentinel-returning helpers", strings.Join(names, ","))
-	c.floor(rule, "sentinel-returning helpers", len(byFn), 4)
+	c.floor(rule, "sentinel-returning helpers", len(byFn), 2)
 	countFns := map[*ssa.Function]bool{}
 	for _, n := range []string{"getPlayableSeatCount"} {
 		if f := p.Func(smPkg, "SeatManager", n); f != nil {
@@ -690,7 +695,7 @@ func runSentinels(c *Ctx, rule string) {
 			}
 		}
 	}
-	c.floor(rule, "call sites of sentinel helpers", nSites, 10)
+	c.floor(rule, "call sites of sentinel helpers", nSites, 5)
 
 	// nil-able position fields of the manager
 	posFields := map[string]bool{"seat_manager.SeatManager.dealer": true, "seat_manager.SeatManager.sb": true, "seat_manager.SeatManager.bb": true}
@@ -962,7 +967,7 @@ func argValidatedByCallers(c *Ctx, fn *ssa.Function, call *ssa.Call) (bool, stri
 	for _, cl := range roots {
 		s := newSumm(p, 0)
 		s.EngineAliases = false
-		s.HelperInline = smHelperFilter(p, cl)
+		s.HelperInline = smHelperFilterLoose(p, cl)
 		paths, _ := s.Function(cl)
 		for _, ps := range paths {
 			for _, e := range ps.Events {
@@ -1160,4 +1165,29 @@ func runC18PlayerCount(c *Ctx) {
 		bad = append(bad, "the pass does not cover every seat of the table")
 	}
 	c.check(len(bad) == 0, rule, fnKey(fn), p.FnPos(fn), "the number of players is counted by one pass over every seat, a seat counting exactly when it holds a player", "the reported number of players is not the number of occupied seats", uniq(bad, 3)...)
+}
+
+// smHelperFilterLoose also reads in place the loop-free helpers that store nothing, even when
+// they hand back a sentinel (a helper that picks a seat and says whether it found one).
+func smHelperFilterLoose(p *Prog, owner *ssa.Function) func(*ssa.Function) bool {
+	base := smHelperFilter(p, owner)
+	ix := p.Index()
+	return func(f *ssa.Function) bool {
+		if base(f) {
+			return true
+		}
+		if !privateHelper(owner, f) || len(findLoops(f)) > 0 {
+			return false
+		}
+		fi := ix.Info[f]
+		if fi == nil {
+			return false
+		}
+		for _, w := range fi.Writes {
+			if !w.Fresh {
+				return false
+			}
+		}
+		return true
+	}
 }
